@@ -280,7 +280,6 @@ pub fn run(ctx: &mut Ctx) {
         let mut rng = ctx.rng("two-versions", case);
         let mut cfg = GenCfg::default();
         cfg.max_defs = 4;
-        cfg.allow_bitvec = false;
         let p1 = ProgGen::new(&mut rng, cfg).gen_program();
         let mut p2 = p1.clone();
         let what = edit_program(&mut rng, &mut p2);
